@@ -11,6 +11,7 @@ package main
 
 import (
 	"fmt"
+	"strings"
 
 	"verif/harness/lib"
 	ts "verif/harness/tasksim"
@@ -21,7 +22,12 @@ func run(cfg lib.Cfg) error {
 	out.Rule = "non-trivial = at least two tasks converged at least once each and some step of one task overlapped an open step of another"
 	judge := func(sc *ts.Scenario, kind string) {
 		ts.Judge(out, sc, kind, func(r *ts.Run) []string {
-			return append(r.IsolationOracle(), r.InvOracle()...)
+			msgs := append(r.IsolationOracle(), r.InvOracle()...)
+			if strings.HasPrefix(kind, "corpus-same-event") {
+				// growth-only family: every row sits on a log its OWN declaration accepts
+				msgs = append(r.ForeignLogOracle(), msgs...)
+			}
+			return msgs
 		}, func(r *ts.Run) bool {
 			conv := map[int]bool{}
 			for _, s := range r.Steps {
@@ -133,6 +139,45 @@ func run(cfg lib.Cfg) error {
 			}
 		}
 		judge(sc, "corpus-integration-saved-twice")
+	}
+	// corpus: two integrations on ONE source with the SAME event signature and DIFFERENT positive
+	// log_addr filters (token vs the other contract), through one real caching client, header
+	// plans (block_time) or block plans (tx_value): both read the same cached segments, so the
+	// second reader finds the sibling's logs attached to the shared blocks.  Each table holds
+	// exactly the rows its OWN declaration accepts (the address is checked per log, whatever
+	// was pushed into eth_getLogs).  Both step orders, alternating, statement-level overlap,
+	// concurrency 1-2, separate tables and one shared table.
+	for v, c := range []struct {
+		blockPlan, shared bool
+		order             int // 0: ig1 first, 1: ig2 first, 2: alternating, 3: statement-level overlap
+	}{
+		{false, false, 0}, {false, false, 1}, {true, false, 0}, {true, false, 1},
+		{false, true, 2}, {true, true, 2}, {false, false, 3}, {true, false, 3},
+	} {
+		t2 := "t2"
+		if c.shared {
+			t2 = "t1"
+		}
+		sc := &ts.Scenario{Name: fmt.Sprintf("corpus-same-event-different-addresses-%d", v), Seed: uint64(120 + v), Head: 9, SnapEvery: true, Real: true,
+			Gen:  ts.GenOpts{MaxTxs: 2, MaxLogs: 4, Decoys: true, EmptyProb: 0, OtherEvery: 2},
+			Srcs: []ts.SrcSpec{{Name: "main", ChainID: 1, Batch: 3, Conc: 1 + v%2, URL: "http://main.invalid"}},
+			IGs: []ts.IGSpec{
+				{Name: "ig1", Shape: "log", Table: "t1", AddrFlt: true, TxVal: c.blockPlan, Sources: []ts.SrcRef{{Name: "main", Start: 1}}},
+				{Name: "ig2", Shape: "log", Table: t2, AddrFlt: true, AddrOther: true, TxVal: c.blockPlan, Sources: []ts.SrcRef{{Name: "main", Start: 1}}},
+			}}
+		for k := 0; k < 4; k++ {
+			a, b := 1, 2
+			if c.order == 1 || (c.order >= 2 && k%2 == 1) {
+				a, b = 2, 1
+			}
+			if c.order == 3 {
+				sc.Acts = append(sc.Acts, ts.Act{Do: "advuntil", Tid: a, Call: "Commit"}, ts.Act{Do: "advuntil", Tid: b, Call: "Commit"}, ts.Act{Do: "drain"})
+			} else {
+				sc.Acts = append(sc.Acts, ts.Act{Do: "step", Tid: a}, ts.Act{Do: "step", Tid: b})
+			}
+		}
+		sc.Acts = append(sc.Acts, ts.Act{Do: "drain"})
+		judge(sc, "corpus-same-event-different-addresses")
 	}
 	// corpus: a configuration whose table.columns ALREADY lists stamp columns (ig_name,
 	// src_name, ...) without block entries for them - written from the schema of an existing
